@@ -36,7 +36,9 @@ def align_correspondence(ck, binpath, n):
     for c in cases:
         ck.count_case(("align", json.dumps(c["rows"])), nontrivial=len(c["rows"]) > 1)
         if not c.get("idempotent", True):
-            ck.violation("not-idempotent:doc-tag:spacing", "aligned tag block changes on the second pass", {"text": c["text"], "cfg": {}})
+            for v in oracle_one(ck, binpath, c["text"], {}, "C06"):
+                if v.get("prop") == "C06":
+                    ck.violation(v["signature"], "aligned tag block changes on the second pass: " + v["what"], {"text": c["text"], "cfg": {}})
     ck.cov["distribution"]["align_blocks"] = len(cases)
     for i in (failing or [])[:5]:
         ck.tie_broken("C06 alignment correspondence: the model pads the columns differently from apply_alignment", json.dumps(cases[i])[:2000])
@@ -66,7 +68,7 @@ def main(argv):
         trusted_base=TRUSTED,
         rule="alignment tie: generated @param/@field blocks of 2-5 lines with known columns (names, types with spaces and generics, optional "
              "descriptions, irregular source spacing); printer tie as in C05 with another seed; search: formatter applied twice on corpus "
-             "witnesses, the 20 bundled std files, mutated std files and generated programs x generated configurations; distinct by (text, "
+             "witnesses, the 20 bundled std files, mutated std files and generated programs, at least half of them under the default configuration, the rest under generated configurations; distinct by (text, "
              "configuration); non-trivial = text longer than 20 bytes / block of more than one line",
         assumptions=["correspondence and search are sampled; the theorems carry the all-inputs claim for the two kernels only",
                      "idempotence of the IR builder + parser round trip is not proved; its failures are reported by class (where: code / comment / doc-tag; how: content / line-breaks / blank-lines / indent / spacing)"])
